@@ -139,7 +139,15 @@ auto Run<Char, N>::do_modify(std::uint32_t code) -> void
     case APPEND_RANGE: {
         auto s = srcn(op.a, fitlen(op.b, room));
         auto b = pbuf(s);
-        self(x->append(b.get(), b.end()), *x);
+        if ((op.c & 16U) != 0) {
+            // a genuine (non-pointer) forward iterator, range-checked
+            using It = vf::it::Fwd<Char const>;
+            vf::it::g_out_of_range = false;
+            self(x->append(It(b.get(), b.get(), b.end()), It(b.end(), b.get(), b.end())), *x);
+            if (vf::it::g_out_of_range) { fail("append(first,last) stepped outside [first,last)"); }
+        } else {
+            self(x->append(b.get(), b.end()), *x);
+        }
         mx->append(s.begin(), s.end());
         break;
     }
